@@ -125,8 +125,44 @@ def cases(tier):
     return list(rules.CASES)
 
 
+def defining_forms_as_values(chk):
+    """(setv g FORM) / (setx g FORM) with a defining form as FORM: docs/api.rst gives defn, defclass, defmacro, import, deftype the
+    value None, and the definition takes effect under the name the program gave it - the assignment must not rename the definition
+    (the compiler renames *temporaries* of the value to the target; a user-named definition is not one).  Real pipeline, CPython."""
+    import types
+    import hy
+    forms = {"defn": ("(defn u-f [] 1)", "(u-f)", 1), "defn with statements": ("(defn u-f [] (setv q 1) (+ q 1))", "(u-f)", 2),
+             "async defn": ("(defn :async u-f [] 1)", "(do (import asyncio) (asyncio.run (u-f)))", 1),
+             "decorated defn": ("(defn [(fn [f] f)] u-f [] 1)", "(u-f)", 1),
+             "defclass": ("(defclass U-C [] (setv k 3))", "U-C.k", 3), "defmacro": ("(defmacro u-m [] 4)", "(u-m)", 4),
+             "import": ("(import math)", "(math.floor 2.5)", 2)}
+    wraps = {"setv": "(setv g {})", "setx": "(do (setx g {}) None)", "setv in let": "(let [g 0] (setv g {}) (setv gg g)) (setv g gg)",
+             "setv in fn": "(defn u-outer [] (setv g {}) (global u-f U-C math) g) (setv g (u-outer))"}
+    bad = []
+    for fname, (form, use, want) in forms.items():
+        for wname, w in wraps.items():
+            if wname == "setv in fn":
+                continue            # the definition is local to the function there: only module-level and let wraps are observable
+            src = f"{w.format(form)} [g {use}]"
+            try:
+                got = hy.eval(hy.read_many(src), module=types.ModuleType("hv_c01_def"))
+            except Exception as e:  # noqa: BLE001
+                got = f"{type(e).__name__}: {e}"
+            chk.case(("defining-form", fname, wname))
+            if got != [None, want]:
+                bad.append((src, got, [None, want]))
+    chk.ob("value/a defining form in value position: the assignment target gets None and the definition keeps the name the program gave it",
+           not bad, "cpython-oracle", "exhaustive_finite", detail=None if not bad else f"{bad[0][0]} -> {bad[0][1]!r}, documented: {bad[0][2]!r}",
+           replay=None if not bad else {"confirmed": True, "input": bad[0][0], "observed": repr(bad[0][1]), "expected": repr(bad[0][2])})
+
+
 def run(chk):
     names = cases(chk.tier)
+    defining_forms_as_values(chk)
+    # try / with / raise are core expression forms of this property too: the whole families defined for C09 (every clause combination,
+    # exception-variable scoping, nestings) are obligations here as well, not only the three representatives above
+    from hv.props import c09
+    names = list(dict.fromkeys(names + [n for n in c09.cases() if n.split("/")[0] in ("try", "with", "raise", "nest")]))
     chk.fn(*sorted({c.fn for c in rules.CASES.values() if c.fn}),
            "hy/compiler.py::Result.__add__/expr_as_stmt/force_expr/rename", "hy/compiler.py::HyASTCompiler._compile_branch",
            "hy/compiler.py::HyASTCompiler._storeize")
